@@ -27,7 +27,9 @@ critical sections `lock; Peek; unlock` and `lock; Peek; compare; Pop; unlock` ar
 the callback's start and return, the deferred token release, and `Close`'s remaining steps.
 
 Nondeterminism that the Go code resolves by the shape of its heap is kept open here: `peek hd` and
-`execCheck hd` accept *any* minimal item `hd`, and `enqueue … first` / `dequeue … first` carry the
+`execCheck hd` accept *any* minimal item `hd` — but consistently: the field `root` remembers the item
+seen at the last look and is forgotten at every queue operation (a heap's root does not change in
+between) — and `enqueue … first` / `dequeue … first` carry the
 value of `isFirst` ("the head changed"), constrained only by what every heap guarantees.  So the
 theorems hold for every tie-breaking rule.
 
@@ -156,6 +158,10 @@ structure State (κ ν : Type) where
   readAt : Int := 0
   /-- ghost: the clock value at which the loop last created a timer (`arm`). -/
   armAt : Int := 0
+  /-- The root of the heap if it has been looked at since the last queue operation (`none` =
+  undetermined: any minimal item may turn out to be the root).  The root of a heap does not change
+  between queue operations, so two looks without one in between see the same item. -/
+  root : Option (Item κ ν) := none
   deriving Repr, DecidableEq
 
 inductive Label (κ ν : Type) where
@@ -231,11 +237,11 @@ def step (cfg : Cfg) (s : State κ ν) : Label κ ν → Option (State κ ν)
   | .enqueue k t v first =>
     if enqGuard s.q k t first then
       let r : Item κ ν := ⟨k, t, v, s.nextId⟩
-      some (process { s with q := insert s.q r, nextId := s.nextId + 1, log := .enq r :: s.log } first)
+      some (process { s with q := insert s.q r, nextId := s.nextId + 1, log := .enq r :: s.log, root := none } first)
     else none
   | .dequeue k first =>
     if deqGuard s.q k first then
-      let s1 := { s with q := remove s.q k, log := .deq k :: s.log }
+      let s1 := { s with q := remove s.q k, log := .deq k :: s.log, root := none }
       some (if first then process s1 true else s1)
     else none
   | .advance t => if s.now ≤ t then some { s with now := t } else none
@@ -254,9 +260,9 @@ def step (cfg : Cfg) (s : State κ ν) : Label κ ν → Option (State κ ν)
   | .peek hd =>
     match s.pc with
     | .top =>
-      if IsHead s.q hd then
+      if IsHead s.q hd ∧ (s.root = none ∨ s.root = hd) then
         match hd with
-        | some r => some { s with pc := .peeked r }
+        | some r => some { s with pc := .peeked r, root := some r }
         | none => if cfg.fixed then some { s with token := .free, pc := .absent }
                   else some { s with pc := .exiting }
       else none
@@ -298,9 +304,9 @@ def step (cfg : Cfg) (s : State κ ν) : Label κ ν → Option (State κ ν)
   | .execCheck hd =>
     match s.pc with
     | .firing r =>
-      if IsHead s.q hd then
-        if hd = some r then some { s with q := pop s.q r, pc := .popped r, log := .pop r :: s.log }
-        else some { s with pc := .top }
+      if IsHead s.q hd ∧ (s.root = none ∨ s.root = hd) then
+        if hd = some r then some { s with q := pop s.q r, pc := .popped r, log := .pop r :: s.log, root := none }
+        else some { s with pc := .top, root := hd }
       else none
     | _ => none
   | .cbStart =>
